@@ -6165,6 +6165,11 @@ class Path(Shape, MutableSequence):
         for index in range(len(points)):
             start_pos = self.current_point
             control1 = self.smooth_point
+            if len(self._segments) != 0 and not isinstance(
+                self._segments[-1], QuadraticBezier
+            ):
+                # Only a preceding quadratic curve provides a control point to reflect.
+                control1 = start_pos
             end_pos = points[index]
             if end_pos in ("z", "Z"):
                 end_pos = self.z_point
@@ -6203,6 +6208,11 @@ class Path(Shape, MutableSequence):
         for index in range(0, len(points), 2):
             start_pos = self.current_point
             control1 = self.smooth_point
+            if len(self._segments) != 0 and not isinstance(
+                self._segments[-1], CubicBezier
+            ):
+                # Only a preceding cubic curve provides a control point to reflect.
+                control1 = start_pos
             control2 = points[index]
 
             if control2 in ("z", "Z"):
